@@ -275,7 +275,8 @@ def emit_dbml(w: World, db: str) -> str:
     return "\n\n".join(out) + "\n"
 
 
-def realize_by_parse(env: Env, w: World, db: str, renderers: Optional[Dict[str, Any]] = None) -> Optional[Dict[str, Any]]:
+def realize_by_parse(env: Env, w: World, db: str, renderers: Optional[Dict[str, Any]] = None,
+                     source_style: str = "str") -> Optional[Dict[str, Any]]:
     """Parse the emitted document and map the parsed objects back to model
     handles by position (references by endpoints).  None = cannot map."""
     from pydbml import PyDBML
@@ -283,7 +284,24 @@ def realize_by_parse(env: Env, w: World, db: str, renderers: Optional[Dict[str, 
     m = w.m
     d = m[db]
     try:
-        pdb = PyDBML(text, allow_properties=d["allow_properties"], **(renderers or {}))
+        if source_style == "str":
+            pdb = PyDBML(text, allow_properties=d["allow_properties"], **(renderers or {}))
+        else:
+            # the same document handed over as a pathlib.Path or as an open text file
+            import pathlib
+            import tempfile
+            tmp = tempfile.mkdtemp(prefix="verif-c16-")
+            try:
+                p = pathlib.Path(tmp) / "schema.dbml"
+                p.write_text(text, encoding="utf8")
+                if source_style == "path":
+                    pdb = PyDBML(p, allow_properties=d["allow_properties"], **(renderers or {}))
+                else:
+                    with open(p, encoding="utf8") as f:
+                        pdb = PyDBML(f, allow_properties=d["allow_properties"], **(renderers or {}))
+            finally:
+                import shutil
+                shutil.rmtree(tmp, ignore_errors=True)
     except Exception:
         return None
     real: Dict[str, Any] = {db: pdb}
